@@ -226,7 +226,7 @@ ASSUME['C03'] = ['crash model: a prefix of the backend write sequence reaches th
 
 CHECKS['C19'] = [file_run('mix', 100, 5000, ['C19']), crash_run(3, 40, ['C19'])]
 
-CHECKS['C04'] = [dict(harness='h_flip', variant='plain', args=[], quick=2 * 16, thorough=12 * 16, props=['C04'], name='flip')]
+CHECKS['C04'] = [dict(harness='h_flip', variant='plain', args=[], quick=3 * 16, thorough=12 * 16, props=['C04'], name='flip')]
 LEVELS['C04'] = 'fault_enumeration'
 RULES['C04'] = 'file = small closed file (two signals of different widths, 2 summary levels, annotation and UTC index levels, user data, an omitted block); faults: EVERY single-bit flip of the file (exhaustive per file), sampled 2/3-bit combinations inside one protected region, bursts of 1..32 bits, zero/0xFF/random overwrites incl. several chunks, END chunk and file-header length; each altered copy is opened in its own process and every reader result must be an error, the truth, or a correct prefix. evaluations = faults; distinct = (family, region kind, chunk tag, outcome)'
 ASSUME['C04'] = ['pad bytes between payload and CRC are not covered by any CRC: faults there must simply not change what is returned (counted separately)',
